@@ -212,3 +212,28 @@ Qed.
 Example C16_fail_closed_is_definitional :
   forall A (tok : result A), fst (run_op R3 3 [32] (fun _ => tok)) = Err CryptoError.
 Proof. intros A tok. apply (C16_fail_closed A R3 3 [32] (fun _ => tok) 0); [cbn; lia | reflexivity]. Qed.
+
+(* ---- key generation by rejection: an oracle for which the all-zero scalar is invalid, a source that serves it
+        first and a valid scalar second: the loop skips one draw and returns the second ---- *)
+Definition picky : oracle := fun name args =>
+  if String.eqb name "p384_pk" then match args with [b] => if beq b (repeat x00 48) then [] else toy name args | _ => [] end
+  else toy name args.
+Definition two_step : rng := fun i n => Some (repeat (if Nat.eqb i 0 then x00 else x01) n).
+Example C16_v3_generation_nonvacuous :
+  v3_random picky two_step 0 5 = (GenKey (repeat x01 48), 2) /\
+  v3_random picky (script_rng None) 0 3 = (GenOutOfFuel, 3) /\
+  v3_random picky (script_rng (Some 1)) 0 5 = (GenRngFailed, 2).
+Proof. repeat split; vm_compute; reflexivity. Qed.
+Example C16_v3_generated_key_is_accepted_nonvacuous :
+  v3_decode_secret picky (repeat x01 48) = Ok (repeat x01 48) /\ lc_decode_secret picky (repeat x01 48) = Ok (repeat x01 48).
+Proof.
+  apply (C16_v3_generated_key_is_accepted picky two_step 0 5 (repeat x01 48) 2).
+  - intros n x H. unfold two_step in H. assert (E : x = repeat (if Nat.eqb n 0 then x00 else x01) 48) by congruence.
+    rewrite E. apply repeat_length.
+  - vm_compute. reflexivity.
+Qed.
+Example C16_v3_generation_skips_only_invalid_scalars_nonvacuous : p384_pk picky (repeat x00 48) = None.
+Proof.
+  apply (C16_v3_generation_skips_only_invalid_scalars picky two_step 0 5 (GenKey (repeat x01 48)) 2 0 (repeat x00 48));
+    [vm_compute; reflexivity|lia|lia|reflexivity].
+Qed.
